@@ -508,7 +508,7 @@ func hooksC19() Hooks {
 					r.violate("ro-fresh|battery-vs-model|"+g+fmt.Sprintf("|after-gc=%v", round == 1), "read-only handle on a directory without segments (after GC: %v): %s", round == 1, d)
 					break
 				}
-				if st := got.G["stat"]; len(st) == 1 && st[0] != "Stat=messages:0 segments:0" {
+				if st := got.G["stat"]; len(st) == 1 && !strings.HasPrefix(st[0], "Stat=messages:0 ") {
 					r.violate("ro-fresh|stat"+fmt.Sprintf("|after-gc=%v", round == 1), "read-only handle on a directory without segments: %s", st[0])
 					break
 				}
@@ -521,7 +521,43 @@ func hooksC19() Hooks {
 					break
 				}
 			}
+			// the lock rules hold on such a directory too: a second read-only handle is let in, a
+			// read-write Open is refused as long as either of them is open, and let in afterwards
+			tryRW := func(when string, want bool) bool {
+				wo := r.OOpts
+				wo.Readonly, wo.Check, wo.Recover, wo.Eager = false, false, false, false
+				var wl klevdb.Log
+				err := guard(func() error {
+					var e error
+					wl, e = klevdb.Open(dir, wo.K(&r.P.Cfg))
+					return e
+				})
+				if err == nil {
+					_ = guard(func() error { return wl.Close() })
+				}
+				if (err == nil) != want {
+					r.violate("ro-fresh|lock|"+when, "directory without segments, %s: read-write Open returned %v", when, err)
+					return false
+				}
+				return true
+			}
+			var l2 klevdb.Log
+			if err := guard(func() error {
+				var e error
+				l2, e = klevdb.Open(dir, o.K(&r.P.Cfg))
+				return e
+			}); err != nil {
+				r.violate("ro-fresh|second-reader|"+errKind(err), "second read-only Open of a directory without segments failed: %v", err)
+				_ = guard(func() error { return l.Close() })
+				return true
+			}
+			ok := tryRW("two read-only handles open", false)
 			_ = guard(func() error { return l.Close() })
+			ok = ok && tryRW("one of two read-only handles closed", false)
+			_ = guard(func() error { return l2.Close() })
+			if ok {
+				tryRW("both read-only handles closed", true)
+			}
 			r.probe("ro_fresh_directory")
 		case "ro_damage_probe":
 			c19DamageProbe(r, s, op)
